@@ -274,6 +274,10 @@ func exploreBFS(c *vx.Ctx, props string, seeds []int, depth int, alpha []string,
 		frontier = append(frontier, node{7, []string{"V:c:3:nil", "StallS", "V:p:h:A@0,1"}})
 		// ... and then the network leaves that round too (nil precommits) while the jump-ahead is still unread.
 		frontier = append(frontier, node{7, []string{"V:c:3:nil", "StallS", "V:p:h:A@0,1", "V:c:h:nil@0,1"}})
+		// ... and: a height committed with the Byzantine validator's precommit instead of the local validator's (the
+		// committing view then still lacks an honest precommit that the next height's proposal will backfill), alone
+		// and with the Byzantine validator's nil precommit for the same round on top (two targets in the committing view).
+		frontier = append(frontier, node{7, []string{"V:c:3:A"}}, node{7, []string{"V:c:3:A", "V:c:3:nil@-1,0"}})
 	}
 	levelDone := -1
 	for d := 0; d <= depth && len(frontier) > 0; d++ {
